@@ -2,6 +2,245 @@
 
 package mimetype
 
-func (g *vfGen) runMore15(slice string) bool { return false }
+import (
+	"fmt"
+	"mime"
+	"sort"
+	"strconv"
+	"strings"
+)
 
-func vfExecMore15(f []string, op string) (string, bool) { return "", false }
+func vfParseRes(s string) string {
+	t, ps, err := mime.ParseMediaType(s)
+	cls := "none"
+	if err != nil {
+		switch {
+		case err == mime.ErrInvalidMediaParameter:
+			cls = "invalidParam"
+		case strings.Contains(err.Error(), "duplicate"):
+			cls = "duplicate"
+		default:
+			cls = "noType"
+		}
+	}
+	var keys []string
+	for k := range ps {
+		keys = append(keys, k)
+	}
+	sort.Strings(keys)
+	var kv []string
+	for _, k := range keys {
+		kv = append(kv, vfHex([]byte(k))+"="+vfHex([]byte(ps[k])))
+	}
+	p := "~"
+	if len(kv) > 0 {
+		p = strings.Join(kv, "&")
+	}
+	return vfHex([]byte(t)) + "|" + p + "|" + cls
+}
+
+func vfExecMore15(f []string, op string) (string, bool) {
+	switch f[0] {
+	case "fmt": // fmt typehex valhex
+		return fmt.Sprintf("%s => %s", op, vfHex([]byte(mime.FormatMediaType(string(vfUnhex(f[1])), map[string]string{"charset": string(vfUnhex(f[2]))})))), true
+	case "parse": // parse hex
+		return fmt.Sprintf("%s => %s", op, vfParseRes(string(vfUnhex(f[1])))), true
+	case "is": // is namehex shex : Lookup(name).Is(s), EqualsAny(s, name)
+		m := Lookup(string(vfUnhex(f[1])))
+		if m == nil {
+			return op + " => NOLOOKUP", true
+		}
+		s := string(vfUnhex(f[2]))
+		return fmt.Sprintf("%s => %s%s %s", op, vfBit(m.Is(s)), vfBit(EqualsAny(s, string(vfUnhex(f[1])))), vfHex([]byte(m.String()))), true
+	case "eqany": // eqany shex thex
+		return fmt.Sprintf("%s => %s", op, vfBit(EqualsAny(string(vfUnhex(f[1])), string(vfUnhex(f[2]))))), true
+	case "res": // res hex lim : properties of a detection result
+		data := vfUnhex(f[1])
+		lim64, _ := strconv.ParseUint(f[2], 10, 32)
+		SetLimit(uint32(lim64))
+		in, _ := vfExact(data)
+		d := Detect(in)
+		s := d.String()
+		var parents []string
+		n := 0
+		for p := d.Parent(); p != nil && n < 64; p = p.Parent() {
+			parents = append(parents, vfHex([]byte(p.String())))
+			n++
+		}
+		ps := "~"
+		if len(parents) > 0 {
+			ps = strings.Join(parents, ",")
+		}
+		t, _, _ := mime.ParseMediaType(s)
+		lk := Lookup(t)
+		lkIs := "F"
+		if lk != nil && lk.Is(s) {
+			lkIs = "T"
+		}
+		// the result knows the aliases of its format
+		aliasOK := "T"
+		if lk != nil {
+			for _, a := range lk.aliases {
+				if !d.Is(a) || !d.Is("  "+strings.ToUpper(a)+" ; x=y") {
+					aliasOK = "F"
+				}
+			}
+		}
+		return fmt.Sprintf("%s => %s %s %s %s%s%s%s", op, vfHex([]byte(s)), vfParseRes(s), ps, vfBit(d.Is(s)), vfBit(EqualsAny(s, s)), lkIs, aliasOK), true
+	}
+	return vfExecMore16(f, op)
+}
+
+func (g *vfGen) runMore15(slice string) bool {
+	switch slice {
+	case "C02":
+		g.genC02()
+	case "C15":
+		g.genC15()
+	default:
+		return g.runMore16(slice)
+	}
+	return true
+}
+
+func (g *vfGen) hostileLabel() []byte {
+	special := []byte{'"', '\\', ';', '=', '\'', '%', '*', '\r', '\n', '\t', 0x7F, 0x80, 0xFF, ' ', ',', '/', '(', '@', 0x00, 0x1F, 0xC3, 0xA9}
+	n := 1 + g.rng.Intn(12)
+	b := make([]byte, n)
+	for i := range b {
+		if g.rng.Intn(2) == 0 {
+			b[i] = special[g.rng.Intn(len(special))]
+		} else {
+			b[i] = byte('a' + g.rng.Intn(26))
+		}
+	}
+	return b
+}
+
+func (g *vfGen) genC02() {
+	types := []string{"text/plain", "text/html", "text/xml"}
+	// the formatter / parser models against the real mime package: all 1- and 2-byte labels
+	for a := 0; a < 256; a++ {
+		g.emit(vfOp("fmt", []byte(types[a%3]), []byte{byte(a)}))
+		full := mime.FormatMediaType(types[a%3], map[string]string{"charset": string([]byte{byte(a)})})
+		if full != "" {
+			g.emit(vfOp("parse", []byte(full)))
+		}
+	}
+	step := 7
+	if g.thorough {
+		step = 1
+	}
+	for a := 0; a < 256; a++ {
+		for b := (a * 3) % step; b < 256; b += step {
+			v := []byte{byte(a), byte(b)}
+			g.emit(vfOp("fmt", []byte("text/html"), v))
+			if full := mime.FormatMediaType("text/html", map[string]string{"charset": string(v)}); full != "" {
+				g.emit(vfOp("parse", []byte(full)))
+			}
+		}
+	}
+	for i := 0; i < g.pick(3000, 200000); i++ {
+		v := g.hostileLabel()
+		t := types[g.rng.Intn(3)]
+		g.emit(vfOp("fmt", []byte(t), v))
+		if full := mime.FormatMediaType(t, map[string]string{"charset": string(v)}); full != "" {
+			g.emit(vfOp("parse", []byte(full)))
+		}
+	}
+	// documents declaring hostile labels, through Detect
+	for i := 0; i < g.pick(1500, 60000); i++ {
+		l := g.hostileLabel()
+		var doc []byte
+		switch g.rng.Intn(5) {
+		case 0:
+			doc = append(append([]byte("<html><meta charset=\""), l...), []byte("\"><body>x")...)
+		case 1:
+			doc = append(append([]byte("<html><meta charset='"), l...), []byte("'><body>x")...)
+		case 2:
+			doc = append(append([]byte("<html><meta http-equiv=content-type content=\"text/html; charset="), l...), []byte("\">")...)
+		case 3:
+			doc = append(append([]byte("<?xml version=\"1.0\" encoding=\""), l...), []byte("\"?><r/>")...)
+		default:
+			doc = append(append([]byte("<?xml version='1.0' encoding='"), l...), []byte("'?><r/>")...)
+		}
+		g.emit(vfOp("res", doc, 0))
+	}
+	// every corpus entry
+	for _, c := range vfCorpus() {
+		if len(c) > 1<<16 {
+			c = c[:1<<16]
+		}
+		g.emit(vfOp("res", c, 0))
+		g.emit(vfOp("res", c, 3072))
+	}
+	// error paths: the value returned with an error is exactly application/octet-stream
+	for i := 0; i < 40; i++ {
+		g.emit(vfOp("reader", []int{0, 16, 3072}[g.rng.Intn(3)], g.textBytes(60), "~", 0, g.rng.Intn(30)))
+	}
+	g.emit("filebad missing")
+	g.emit("filebad dir")
+}
+
+func (g *vfGen) decorate(name string) string {
+	b := []byte(name)
+	for i := range b {
+		if g.rng.Intn(3) == 0 && b[i] >= 'a' && b[i] <= 'z' {
+			b[i] -= 32
+		}
+	}
+	s := string(b)
+	ws := []string{"", " ", "  ", "\t", " \t "}
+	s = ws[g.rng.Intn(len(ws))] + s + ws[g.rng.Intn(len(ws))]
+	params := []string{"", "; charset=utf-8", ";charset=\"iso-8859-1\"", "; q=0.8", "; a=b; c=\"d e\"", "; charset*=utf-8''caf%C3%A9", " ; x=y ", ";", "; boundary=\"--x;y\""}
+	return s + params[g.rng.Intn(len(params))]
+}
+
+func (g *vfGen) genC15() {
+	// every registered name and alias, decorated
+	mu.RLock()
+	nodes := root.flatten()
+	mu.RUnlock()
+	var names []string
+	for _, n := range nodes {
+		names = append(names, n.mime)
+		names = append(names, n.aliases...)
+	}
+	reps := g.pick(4, 60)
+	for _, n := range names {
+		g.emit(vfOp("is", []byte(n), []byte(n)))
+		for r := 0; r < reps; r++ {
+			g.emit(vfOp("is", []byte(n), []byte(g.decorate(n))))
+		}
+		// a different registered name must not match (unless alias / same type)
+		o := names[g.rng.Intn(len(names))]
+		g.emit(vfOp("is", []byte(n), []byte(g.decorate(o))))
+		// names that strictly extend the type (font/woff vs font/woff2)
+		g.emit(vfOp("eqany", []byte(n), []byte(n+"2; q=0.8")))
+		g.emit(vfOp("eqany", []byte(n), []byte(g.decorate(n))))
+	}
+	// parser model on arbitrary ASCII strings
+	for i := 0; i < g.pick(3000, 100000); i++ {
+		n := names[g.rng.Intn(len(names))]
+		s := g.decorate(n)
+		if g.rng.Intn(3) == 0 {
+			j := g.rng.Intn(len(s) + 1)
+			s = s[:j] + string("=;\"\\/ *'%"[g.rng.Intn(9)]) + s[j:]
+		}
+		g.emit(vfOp("parse", []byte(s)))
+	}
+	// detection results (including quoted and RFC 2231 encoded charset parameters)
+	for i := 0; i < g.pick(600, 20000); i++ {
+		l := g.hostileLabel()
+		doc := append(append([]byte("<html><meta charset=\""), l...), []byte("\"><body>x")...)
+		if g.rng.Intn(2) == 0 {
+			doc = append(append([]byte("<?xml version=\"1.0\" encoding=\""), l...), []byte("\"?><r/>")...)
+		}
+		g.emit(vfOp("res", doc, 0))
+	}
+	for _, c := range vfCorpus() {
+		if len(c) <= 1<<16 {
+			g.emit(vfOp("res", c, 0))
+		}
+	}
+}
